@@ -15,6 +15,12 @@ CATALOG = {
                     "extract": "ring_programs", "replay": "run_ring_program",
                     "limit": {"quick": 5000, "thorough": 400000}}],
     },
+    "C02": {
+        "drivers": [("call", {"quick": 400, "thorough": 15000}, {})],
+    },
+    "C06": {
+        "drivers": [("deriv", {"quick": 500, "thorough": 20000}, {})],
+    },
     "C07": {
         "drivers": [("order", {"quick": 500, "thorough": 20000}, {})],
     },
